@@ -33,3 +33,11 @@ Definition run_plain (ts : list bytes) : bytes :=
     end
   | _ => bad_case
   end.
+
+Definition run_jlen (ts : list bytes) : bytes :=
+  match ts with
+  | [h] => match unhex_dash h with
+           | Some s => match jlen s with Some n => B"len=" ++ show_N (N.of_nat n) | None => B"rej" end
+           | None => bad_case end
+  | _ => bad_case
+  end.
